@@ -278,6 +278,31 @@ def hit_test(chk, prog, fn, sname, tag, ptr_field, ev):
         clean.add(b)
         stack.extend(b.succs)
     found = False
+    # a function that also *uses* the payload (copies out of it) has other ways to succeed than a cache hit (nothing to
+    # read, a sparse block, ...): there the obligation sits on the use -- a copy out of the payload that can be reached
+    # without a (re)load is guarded by the tag (and pointer) test
+    uses = []
+    if ptr_field:
+        for c in fn.calls():
+            if norm_callee(c.callee) in ("memcpy", "memmove") and len(c.ops) >= 2:
+                if any(x.is_inst and x.op == "load" and field_of_ptr(x.ops[0], sname) == ptr_field
+                       for x in [strip_casts(c.ops[1])] + list(backward_slice(c.ops[1], phi_control=False, limit=30))):
+                    uses.append(c)
+    if uses:
+        for c in uses:
+            if c.bb not in clean:
+                continue
+            found = True
+            has_tag = not _reach_clean_avoiding(fn, c.bb, clean, sname, tag, False)
+            has_ptr = not _reach_clean_avoiding(fn, c.bb, clean, sname, ptr_field, True)
+            inst = "%s:%s:hit" % (fn.name, tag)
+            if has_tag and has_ptr:
+                chk.ok("K13-hit", inst, c, "a copy out of the cached block that is reached without a reload is guarded by %s == key and %s != NULL"
+                       % (tag, ptr_field))
+            else:
+                chk.violation("K13-hit", inst, c, "the cached block is copied from on a path without a reload that is not guarded by the "
+                              "tag/pointer test")
+        return found
     for r in fn.rets():
         if not r.ops:
             continue
@@ -724,6 +749,17 @@ def out_param_null_on_failure(prog, g, idx):
 
     def is_out_store(i):
         return i.op == "store" and strip_casts(i.ops[1]) is par
+    # values the function hands back: where one of them is known to be 0 the function succeeds, whatever it left in *out
+    rvals = set()
+    for r in g.rets():
+        if r.ops:
+            st_ = [r.ops[0]]
+            while st_:
+                x = strip_casts(st_.pop())
+                if x.is_inst and x.op == "phi":
+                    st_.extend(x.ops)
+                elif not x.is_const:
+                    rvals.add(id(x))
     states = {g.blocks[0]: frozenset(["init"])}
     work = [g.blocks[0]]
     outs = {}
@@ -748,6 +784,10 @@ def out_param_null_on_failure(prog, g, idx):
                         isnull_edge = (s is t.x["succ"][0]) == (c.pred == "eq")
                         if isnull_edge:
                             e = frozenset(["null"])
+                if c.is_inst and c.op == "icmp" and c.pred in ("eq", "ne") and c.ops[1].is_const and c.ops[1].is_int and \
+                        c.ops[1].sval == 0 and id(strip_casts(c.ops[0])) in rvals:
+                    if (s is t.x["succ"][0]) == (c.pred == "eq"):
+                        e = frozenset(["succ"])        # the status is 0 on this edge
             cur = states.get(s)
             nv = e if cur is None else cur | e
             if nv != cur:
@@ -767,7 +807,7 @@ def out_param_null_on_failure(prog, g, idx):
         elif not (v.is_const and v.is_int and v.sval == 0):
             cands.append((r.bb, outs[r.bb]))
         for b, st in cands:
-            if st != frozenset(["null"]):
+            if not st <= frozenset(["null", "succ"]):
                 return False, b.term
     return True, None
 
@@ -1064,50 +1104,40 @@ def unique_key_rule(chk, prog):
                 if (cond.pred == "ne") == (outcome is True):
                     return True
         return False
-    # look-ups of the tag outside the functions that maintain it: the comparison itself sits under the test
+    # every comparison of the tag with a key and every store of a new key sits under the test -- in the function itself,
+    # or at every place the function is called from
+    def guarded(f, bb, depth=0):
+        if nonsparse_guard(f, bb):
+            return True
+        if depth >= 2:
+            return False
+        sites = [c for c in prog.callers_of(f) if c.fn.unit.src == f.unit.src]
+        return bool(sites) and all(guarded(c.fn.build(), c.bb, depth + 1) for c in sites)
     for f in prog.functions():
-        if f.decl or f.unit.src != "lib/sqfs/src/data_reader.c" or f in fills:
+        if f.decl or f.unit.src != "lib/sqfs/src/data_reader.c":
             continue
         f.build()
         for i in f.insts():
-            if i.op != "icmp" or i.pred not in ("eq", "ne"):
-                continue
-            if not any(x.is_inst and x.op == "load" and field_of_ptr(x.ops[0], "struct.sqfs_data_reader_t") == "current_block"
-                       for o in i.ops for x in [o] + list(backward_slice(o, phi_control=False, limit=10))):
+            kind = None
+            if i.op == "icmp" and i.pred in ("eq", "ne") and any(
+                    x.is_inst and x.op == "load" and field_of_ptr(x.ops[0], "struct.sqfs_data_reader_t") == "current_block"
+                    for o in i.ops for x in [o] + list(backward_slice(o, phi_control=False, limit=10))):
+                kind = "lookup"
+            elif i.op == "store" and field_of_ptr(i.ops[1], "struct.sqfs_data_reader_t") == "current_block" and \
+                    not i.ops[0].is_const and not base_is_fresh(prog, i.ops[1], f):
+                kind = "fill"
+            if kind is None:
                 continue
             n += 1
             chk.analysed(f)
-            inst = "%s:lookup@%d" % (f.name, i.line)
-            if nonsparse_guard(f, i.bb):
-                chk.ok("K9-key", inst, i, "the tag is compared only for blocks with a non-zero on-disk size")
+            inst = "%s:%s@%d" % (f.name, kind, i.line)
+            if guarded(f, i.bb):
+                chk.ok("K9-key", inst, i, "the location-keyed cache is %s only for blocks with a non-zero on-disk size (here or at every "
+                       "call site)" % ("consulted" if kind == "lookup" else "filled"))
             else:
-                chk.violation("K9-key", inst, i, "the location-keyed block cache is looked up for a block that may be sparse: a hole "
-                              "has the location of the data block behind it, so it is answered with that block's bytes when the "
-                              "block happens to be cached")
-    for g in fills:
-        for c in prog.callers_of(g):
-            f = c.bb.fn
-            f.build()
-            chk.analysed(f)
-            n += 1
-            inst = "%s->%s" % (f.name, g.name)
-            ok = False
-            for (cond, outcome, br) in f.guards_at(c.bb):
-                if not (cond.is_inst and cond.op == "icmp" and cond.ops[1].is_const and cond.ops[1].is_int and cond.ops[1].sval == 0):
-                    continue
-                a = cond.ops[0]
-                while a.is_inst and a.op in ("zext", "sext", "trunc"):
-                    a = a.ops[0]
-                if a.is_inst and a.op == "and" and any(o.is_const and o.is_int and o.uval == 0xFFFFFF for o in a.ops):
-                    nonzero = (cond.pred == "ne") == (outcome is True)
-                    if nonzero:
-                        ok = True
-            if ok:
-                chk.ok("K9-key", inst, c, "the cache is consulted only for blocks with a non-zero on-disk size (location identifies the block)")
-            else:
-                chk.violation("K9-key", inst, c, "the location-keyed block cache is used for a block that may be sparse: a hole has the "
-                              "location of the data block behind it, so one of the two is answered with the other's bytes depending on "
-                              "what was read before")
+                chk.violation("K9-key", inst, i, "the location-keyed block cache is %s for a block that may be sparse: a hole has the "
+                              "location of the data block behind it, so one of the two is answered with the other's bytes depending "
+                              "on what was read before" % ("looked up" if kind == "lookup" else "filled"))
     return n
 
 
